@@ -4,12 +4,15 @@ id=$1; shift
 d=/verif/seeded/$id
 prop=$(jq -r .property $d/agent_meta.json)
 props="$@"; [ -z "$props" ] && props=$prop
-cd /repo
-if [ -n "$(git status --porcelain)" ]; then echo "/repo not clean"; exit 2; fi
+# a scratch worktree of /repo HEAD (removed by the caller when the batch is done), so that /repo stays untouched
+R=${DETECT_REPO:-/tmp/detect_repo}
+if [ ! -d $R ]; then git -C /repo worktree add --detach $R HEAD -q || exit 2; fi
+cd $R
+git checkout -q --detach $(git -C /repo rev-parse HEAD) && git checkout -- . && git clean -fdq
 git apply $d/patch.diff || { echo "patch does not apply"; exit 2; }
 mkdir -p /tmp/detect_verif; cp /verif/known_findings.json /tmp/detect_verif/; : > $d/detect.log
 for p in $props; do
-  VERIF_DIR=/tmp/detect_verif /verif/bin/gbverif check $p 2>&1 | grep -E "^(VIOLATION|KNOWN-FINDING|C[0-9]+ tier)" | sed "s#/tmp/detect_verif#/verif#" >> $d/detect.log
+  VERIF_REPO=$R VERIF_DIR=/tmp/detect_verif /verif/bin/gbverif check $p 2>&1 | grep -E "^(VIOLATION|KNOWN-FINDING|C[0-9]+ tier)" | sed "s#/tmp/detect_verif#/verif#" >> $d/detect.log
 done
 git checkout -- .
 n=$(grep -c "^VIOLATION" $d/detect.log)
@@ -23,7 +26,7 @@ rules=sorted(set(re.findall(r'rule=(\S+)',open(d+'/detect.log').read())))
 meta={'id':id,'property':am.get('property'),'summary':am.get('summary'),'needs_to_manifest':am.get('needs'),
  'demo':{'dir':am.get('demo_dir'),'cmd':am.get('demo_cmd')},
  'confirmed':'RESULT confirmed' in confirm,
- 'what_i_ran':'tools_confirm_seed.sh: fresh worktree of /repo HEAD under /tmp/confirm; patch applied; demo fails; full suite (unshare -n) passes; patch removed; demo passes. tools_detect_seed.sh: patch applied to /repo, gbverif check run, patch undone.',
+ 'what_i_ran':'tools_confirm_seed.sh: fresh worktree of /repo HEAD under /tmp/confirm; patch applied; demo fails; full suite (unshare -n) passes; patch removed; demo passes. tools_detect_seed.sh: patch applied to a scratch worktree of /repo HEAD, gbverif check run there (VERIF_REPO), patch undone.',
  'detected':n>0,'detected_by_rules':rules}
 json.dump(meta,open(d+'/meta.json','w'),indent=1)
 print(id,'detected' if n>0 else 'MISSED',rules)
